@@ -475,3 +475,4 @@ Print Assumptions c01_concrete_example_hypotheses.
 Print Assumptions c01_concrete_example_runs.
 Print Assumptions c01_concrete_example_least_model.
 
+Print Assumptions std_interp_ok_nil. Print Assumptions arities_functional_dec. Print Assumptions tc_arities_functional.
